@@ -252,6 +252,18 @@ pub fn check(sc: &Scenario, out: &RunOutput) -> OracleResult {
         }
         res.hit("connect_failed_for_lack_of_slot", at_once && pending >= SLOTS_PER_ADDR);
     }
+    // (6a') a connect call that fails at once has reserved nothing - in particular it has not
+    // put a SYN on the wire (such a SYN opens a connection at the listener that no connect call
+    // answers for)
+    for n in 1..sc.nodes.len() {
+        let me = sc.addr(n);
+        let syns: HashSet<u16> = h.emits().filter(|(_, e)| e.src == me && e.dst == l && e.real).filter_map(|(_, e)| e.pkt.as_ref()).filter(|p| p.typ == codec::ST_SYN).map(|p| p.conn_id).collect();
+        let started = connect_start.keys().filter(|k| sc.connects[**k].node == n).count();
+        let failed_at_once = connect_done.iter().filter(|(k, (t, _, r))| sc.connects[**k].node == n && r.is_err() && connect_start.get(k).is_some_and(|(ts, _)| ts == t)).count();
+        if syns.len() + failed_at_once > started {
+            res.violate(P, "syn-sent-for-a-connect-that-failed-at-once", out.t_end, format!("node {}: {} connect calls were made, {} of them failed at the instant of the call, yet {} distinct SYNs went out", n, started, failed_at_once, syns.len()));
+        }
+    }
     // (6b) at the end of the run no connecting slot is held by a finished or abandoned connect
     {
         let mut last_connecting: HashMap<SocketAddr, usize> = HashMap::new();
